@@ -47,6 +47,7 @@ func GenFlow(rng *rand.Rand, o GenOpts) *FlowP {
 		return len(f.Types) - 1
 	}
 	consumed := map[int]int{}
+	nOther := 0
 	var avail []int
 	for i, n := 0, rng.Intn(4); i < n; i++ {
 		t := newType()
@@ -69,6 +70,28 @@ func GenFlow(rng *rand.Rand, o GenOpts) *FlowP {
 				rest = append(rest, a)
 			}
 		}
+		// A task written as a function of another package (aux) can only
+		// mention types that package can name: types of a third package the
+		// program file does not import, and (through type parameters) local
+		// named integer types. Every other task cannot mention the former.
+		isAux := !o.Modifier && !o.NoOther && rng.Intn(5) == 0
+		okFor := func(ty int) bool {
+			k := f.Types[ty].Kind
+			if isAux {
+				return k == TOther || k == TNamed
+			}
+			return k != TOther
+		}
+		filter := func(ts []int) []int {
+			var out []int
+			for _, ty := range ts {
+				if okFor(ty) {
+					out = append(out, ty)
+				}
+			}
+			return out
+		}
+		fresh, rest = filter(fresh), filter(rest)
 		nin := rng.Intn(4)
 		in := pickDistinct(rng, fresh, nin)
 		if len(in) < nin && rng.Intn(2) == 0 {
@@ -88,9 +111,15 @@ func GenFlow(rng *rand.Rand, o GenOpts) *FlowP {
 		t.Ctx = rng.Intn(2) == 0
 		t.Err = rng.Intn(2) == 0
 		if !o.Modifier {
-			if rng.Intn(4) == 0 && len(avail) > 0 {
+			var predAvail []int
+			for _, ty := range avail {
+				if f.Types[ty].Kind != TOther {
+					predAvail = append(predAvail, ty)
+				}
+			}
+			if rng.Intn(4) == 0 && len(predAvail) > 0 {
 				p := &PredP{Ctx: rng.Intn(2) == 0}
-				p.In = pickDistinct(rng, avail, rng.Intn(3))
+				p.In = pickDistinct(rng, predAvail, rng.Intn(3))
 				for _, a := range p.In {
 					consumed[a]++
 				}
@@ -110,13 +139,26 @@ func GenFlow(rng *rand.Rand, o GenOpts) *FlowP {
 				t.Form = FormTop
 				t.Ctx = true
 			}
+			if isAux {
+				t.Form = FormAux
+				t.Ctx = true
+			}
 			t.WrapFn = f.WrapArgs && rng.Intn(3) == 0
 		}
 		if f.Emitters > 0 && rng.Intn(2) == 0 && !o.AutoInstr {
 			t.Instr = true
 		}
 		for k := 0; k < nout; k++ {
-			t.Out = append(t.Out, newType())
+			ty := newType()
+			if isAux {
+				if nOther < 8 && rng.Intn(10) < 7 {
+					f.Types[ty] = TypeSpec{Kind: TOther, X: nOther}
+					nOther++
+				} else {
+					f.Types[ty] = TypeSpec{Kind: TNamed}
+				}
+			}
+			t.Out = append(t.Out, ty)
 		}
 		f.Tasks = append(f.Tasks, t)
 		avail = append(avail, t.Out...)
@@ -126,7 +168,19 @@ func GenFlow(rng *rand.Rand, o GenOpts) *FlowP {
 		if consumed[p] > 0 {
 			continue
 		}
-		t := &f.Tasks[rng.Intn(len(f.Tasks))]
+		var cands []int
+		for i := range f.Tasks {
+			if f.Tasks[i].Form != FormAux || f.Types[p].Kind == TNamed {
+				cands = append(cands, i)
+			}
+		}
+		if len(cands) == 0 {
+			// only aux tasks exist: consume it in a predicate-free extra task
+			f.Tasks = append(f.Tasks, TaskP{ID: len(f.Tasks), In: []int{p}, Form: FormLiteral})
+			consumed[p]++
+			continue
+		}
+		t := &f.Tasks[cands[rng.Intn(len(cands))]]
 		t.In = append(t.In, p)
 		consumed[p]++
 	}
